@@ -32,6 +32,8 @@ ValSet(name) ==
       [] name = "num" -> {VNull, VInt(1), VInt(2), VFlt(4)}
       [] name = "mixed" -> {VNull, VInt(1), VInt(2), VFlt(4), VStr("a"), VBool(TRUE)}
       [] name = "bool" -> {VNull, VBool(TRUE), VBool(FALSE), VInt(1)}
+      [] name = "c02" -> {VNull, VInt(1), VInt(2), VFlt(4), VStr("a")}
+      [] name = "c02b" -> {VNull, VInt(2), VFlt(4), VBool(TRUE)}
 LabelOrder == <<"A", "B">>
 LabSeq(S) == SelectSeq(LabelOrder, LAMBDA x : x \in S)
 
@@ -334,6 +336,41 @@ FamMix == {Q1(<<m>> \o s2 \o <<r>>) : m \in MixFirst, s2 \in MixSecond, r \in Mi
 FamAll == FamScanL \cup FamScanW1 \cup FamScanW2 \cup FamScanI \cup FamHopD \cup FamHopP \cup FamAgg \cup FamAggHop \cup FamOpt
           \cup FamOrd \cup FamOrd2 \cup FamWith \cup FamWithHop \cup FamUnwind \cup FamUnion \cup FamVar \cup FamShort
 
+\* C02: templates whose plan depends on indexes (label + property predicate on the scan anchor), on the storage tier
+\* (relationship expansion, relationship / degree counts from statistics) or on the filter path (predicates that can fail)
+nA1 == NP("n", <<"A">>, <<>>)
+MNA(w) == Match(<<Path0(nA1)>>, w)
+FamC02 ==
+    {Q1(<<MNA(Cmp("=", np, Lit(v))), RetNP>>) : v \in {VInt(1), VInt(2), VFlt(4), VStr("a")}}
+    \cup {Q1(<<MNA(Cmp(op, np, Lit(v))), RetNP>>) : op \in {"<", "<=", ">", ">="}, v \in {VInt(2), VFlt(4)}}
+    \cup {Q1(<<MNA(Cmp("=", Lit(VInt(2)), np)), RetNP>>),
+          Q1(<<Match(<<Path0(NP("n", <<"A">>, <<KV("p", VInt(2))>>))>>, NoX), RetNP>>),
+          Q1(<<Match(<<Path0(NP("n", <<"B">>, <<>>))>>, Cmp("=", np, Lit(VInt(2)))), RetNP>>),
+          Q1(<<Match(<<Path0(n0)>>, Cmp("=", np, Lit(VInt(2)))), RetNP>>),
+          Q1(<<MNA(And(Cmp("=", np, Lit(VInt(2))), NotNullX(np))), RetNP>>),
+          Q1(<<MNA(NotNullX(np)), RetNP>>), Q1(<<MNA(IsNullX(np)), RetNP>>),
+          Q1(<<MNA(InX(np, LitList(<<VInt(2), VStr("a")>>))), RetNP>>),
+          Q1(<<MNA(np), RetNP>>), Q1(<<MNA(Not(np)), RetNP>>),
+          Q1(<<MNA(NoX), Ret(<<Item(Agg("count", Var("n"), FALSE), "c")>>)>>),
+          Q1(<<MNA(Cmp("=", np, Lit(VInt(2)))), Ret(<<Item(CStar, "c")>>)>>),
+          Q1(<<Match(<<Path1(nA1, RP("r", <<>>, "out", <<>>), NP("m", <<>>, <<>>))>>, Cmp("=", np, Lit(VInt(2)))),
+               Ret(<<Item(Var("n"), ""), Item(Var("r"), ""), Item(Var("m"), "")>>)>>),
+          Q1(<<Match(<<Path1(NP("m", <<>>, <<>>), RP("r", <<>>, "out", <<>>), NP("n", <<"A">>, <<KV("p", VInt(2))>>))>>, NoX),
+               Ret(<<Item(Var("m"), ""), Item(Var("r"), ""), Item(Var("n"), "")>>)>>)}
+    \cup {Q1(<<Match(<<Path1(a0, RP("r", ts, d, <<>>), b0)>>, NoX), RetARB>>) : ts \in {<<>>, <<"T">>}, d \in Dirs}
+    \cup {Q1(<<Match(<<Path1(a0, RP("r", ts, "out", <<>>), b0)>>, NoX), Ret(<<Item(x, "c")>>)>>) : ts \in {<<>>, <<"T">>}, x \in {CStar, Agg("count", Var("r"), FALSE)}}
+    \cup {Q1(<<Match(<<Path1(an, RP("r", <<"T">>, "out", <<>>), an)>>, NoX), Ret(<<Item(Agg("count", Var("r"), FALSE), "c")>>)>>),
+          Q1(<<Match(<<Path1(a0, RP("", <<"T">>, "out", <<>>), b0)>>, NoX), Ret(<<Item(va, ""), Item(Agg("count", vb, FALSE), "c")>>)>>),
+          Q1(<<Match(<<Path1(a0, RP("", <<>>, "in", <<>>), b0)>>, NoX), Ret(<<Item(va, ""), Item(Agg("count", vb, FALSE), "c")>>)>>),
+          Q1(<<Match(<<Path1(a0, RP("r", <<>>, "out", <<>>), b0)>>, Cmp("=", rp, Lit(VInt(1)))), RetARB>>),
+          Q1(<<Match(<<Path1(a0, RP("r", <<>>, "out", <<KV("p", VInt(1))>>), b0)>>, NoX), RetARB>>),
+          Q1(<<Match(<<Path2(a0, RP("", <<>>, "out", <<>>), b0, RP("", <<>>, "out", <<>>), c0)>>, NoX),
+               Ret(<<Item(va, ""), Item(vb, ""), Item(Var("c"), "")>>)>>),
+          Q1(<<Match(<<Path1(a0, VL("", <<>>, "out", 1, 2), b0)>>, NoX), RetAB>>),
+          Q1(<<MA, OptMatch(<<Path1(a0, RP("r", <<>>, "out", <<>>), b0)>>, NoX), RetARB>>),
+          Q1(<<Match(<<Path1(aA, RP("r", <<>>, "both", <<>>), b0)>>, Cmp("=", ap, Lit(VInt(2)))), RetARB>>),
+          Q1(<<MN, RetNP>>), Q1(<<MN, Ret(<<Item(CStar, "c")>>)>>)}
+
 FamOf(fm) ==
     CASE fm = "scanL" -> FamScanL
       [] fm = "scanW1" -> FamScanW1
@@ -353,6 +390,7 @@ FamOf(fm) ==
       [] fm = "union" -> FamUnion
       [] fm = "var" -> FamVar
       [] fm = "short" -> FamShort
+      [] fm = "c02" -> FamC02
       [] fm = "mix" -> FamMix
       [] fm = "all" -> FamAll
 
